@@ -457,9 +457,16 @@ class Framer(tasking.Tasker):
         self.reactivate()
 
     def reactivate(self):
-        """set .actives to the .active.outline
-           used to restore full outline after conditional aux truncates it
+        """set .actives to the .active.outline truncated at the topmost frame
+           that has a running conditional aux since a conditional aux suspends
+           the frames below its frame for as long as it runs
+           used to set outline after transition or when conditional aux starts
+           or completes
         """
+        for frame in self.active.outline:
+            if frame.cauxes: # running conditional aux so lower frames suspended
+                self.change(frame.head, frame.headHuman)
+                return
         self.change(self.active.outline, self.active.human)
 
     def deactivate(self):
@@ -926,6 +933,7 @@ class Frame(registering.StoriedRegistrar):
         self.rexacts = [] #list of re-exit acts callables upon re-exit
 
         self.auxes = [] #list of auxilary framers for this frame
+        self.cauxes = [] #list of conditional auxilary framers running under this frame
 
     def clone(self, framer):
         """ Return clone of self by creating new frame in framer and by
